@@ -646,8 +646,10 @@ pub const ENVIRONMENTS: [(&[(&str, &str)], bool); 3] = [
     ),
     (
         &[
-            ("CC6502_INCLUDE", "/dev/shm"), ("CC6502_OPTS", "-O3 -DX=1"), ("CFLAGS", "-O3 -DX=1"), ("CPATH", "/dev/shm"),
-            ("C_INCLUDE_PATH", "/dev/shm"), ("INCLUDE", "/dev/shm"), ("RUST_LOG", "trace"), ("RUST_LOG_STYLE", "always"), ("CLICOLOR_FORCE", "1"),
+            // "$INC" = the materialised include tree of the world's first job that has one: a compiler that consults
+            // these variables finds the headers the request itself does not name a directory for
+            ("CC6502_INCLUDE", "$INC"), ("CC6502_OPTS", "-O3 -DX=1"), ("CFLAGS", "-O3 -DX=1 -I$INC"), ("CPATH", "$INC"),
+            ("C_INCLUDE_PATH", "$INC"), ("INCLUDE", "$INC"), ("RUST_LOG", "trace"), ("RUST_LOG_STYLE", "always"), ("CLICOLOR_FORCE", "1"),
         ],
         true,
     ),
@@ -655,7 +657,7 @@ pub const ENVIRONMENTS: [(&[(&str, &str)], bool); 3] = [
 ];
 
 /// Puts the process into environment `env` (no caller thread is running).
-fn apply_environment(env: u8, dir: &str) {
+fn apply_environment(env: u8, dir: &str, inc: &str) {
     for v in CONTROLLED_VARS {
         std::env::remove_var(v);
     }
@@ -667,7 +669,7 @@ fn apply_environment(env: u8, dir: &str) {
         }
     };
     for (k, v) in vars {
-        std::env::set_var(k, v);
+        std::env::set_var(k, v.replace("$INC", inc));
     }
     let _ = std::env::set_current_dir(format!("{}/{}", dir, if alt { "cwd2" } else { "cwd" }));
 }
@@ -675,7 +677,8 @@ fn apply_environment(env: u8, dir: &str) {
 /// Runs a world. Not re-entrant: one world at a time per process.
 pub fn run_world(world: &World, env: &Arc<WorkerEnv>, wall_per_job: Duration) -> WorldResult {
     let n = world.threads.len();
-    apply_environment(world.env, &env.dir);
+    let env_inc = world.jobs.iter().find(|j| !j.includes.is_empty()).map(|j| env.include_dir(j)).unwrap_or_else(|| "/dev/shm".to_string());
+    apply_environment(world.env, &env.dir, &env_inc);
     log::set_max_level(match world.log_level {
         4 => log::LevelFilter::Debug,
         5 => log::LevelFilter::Trace,
@@ -734,7 +737,7 @@ pub fn run_world(world: &World, env: &Arc<WorkerEnv>, wall_per_job: Duration) ->
     }
     log::set_max_level(log::LevelFilter::Info);
     if world.env != 0 && wall_hang.is_none() {
-        apply_environment(0, &env.dir);
+        apply_environment(0, &env.dir, "");
     }
     let jobs = std::mem::take(&mut *results.lock().unwrap());
     WorldResult { jobs, sched: sched.report(), wall_hang }
